@@ -270,6 +270,14 @@ func outputDiscipline(v *Verdict, d *DeclSpec, r *OpResult, label string, argv [
 		want, other = fd1, fd2
 		wantName, otherName = otherName, wantName
 	}
+	if r.Err == "injected" && r.ErrType == "" && strings.Contains(string(r.Msg), "injected flags error") {
+		// a command's own error WRAPPING a *flags.Error: whether that still counts as
+		// "help" is not fixed; exactly one descriptor must carry it
+		if fd1 != "" && fd2 != "" || (!faulty && fd1 == "" && fd2 == "") {
+			v.fail("c04:error-printed-more-than-once", "a wrapped error from a command must be written to exactly one descriptor: "+desc)
+		}
+		return
+	}
 	if other != "" {
 		v.fail("c04:error-on-wrong-descriptor", fmt.Sprintf("the error text belongs on %s only, but %s received output: %s", wantName, otherName, desc))
 		return
